@@ -423,3 +423,128 @@ fn rec(ctx: &Ctx, base: &Base, max_buf: usize, alpha: &[HCall], seq: &mut Vec<HC
         }
     }
 }
+
+// ---------------------------------------------------------------------- //
+// C10 with two handles on one stream: a refused call on one handle, after the stream was changed
+// through the other, must leave every later result as if it had not been made (differential oracle:
+// the same history with and without the refused call)
+
+#[derive(Clone, Debug, Serialize, Deserialize)]
+pub struct TwoHandleCase {
+    pub version: u16,
+    pub initial: usize,
+    /// what handle `a` does first: 0 = seek(Start(50)), 1 = read 10 bytes, 2 = write 5 bytes (unflushed)
+    pub pre: u8,
+    /// what happens through handle `b`: 0 nothing, 1 set_len(10), 2 set_len(initial + 200), 3 append 30 bytes + flush
+    pub other: u8,
+    /// the refused call on `a`: 0 set_len(u64::MAX), 1 seek(Start(u64::MAX)), 2 seek(Current(i64::MIN)), 3 seek(End(1))
+    pub refused: u8,
+    pub with_refused: bool,
+}
+
+/// Returns (the refused call was refused with InvalidInput, observations afterwards) or a machinery problem.
+pub fn run_two_handle_case(c: &TwoHandleCase) -> Result<(bool, Vec<String>), String> {
+    guarded(|| -> Result<(bool, Vec<String>), String> {
+        let mut l = Live::create(c.version)?;
+        {
+            let mut s = l.comp.create_stream("/s").map_err(|e| e.to_string())?;
+            s.write_all(&ops::pattern(11, c.initial)).map_err(|e| e.to_string())?;
+            s.flush().map_err(|e| e.to_string())?;
+        }
+        let mut a = ops::NoDropOnPanic::new(l.comp.open_stream("/s").map_err(|e| e.to_string())?);
+        let mut b = ops::NoDropOnPanic::new(l.comp.open_stream("/s").map_err(|e| e.to_string())?);
+        match c.pre {
+            0 => {
+                let _ = a.seek(SeekFrom::Start(50.min(c.initial as u64)));
+            }
+            1 => {
+                let mut t = [0u8; 10];
+                let _ = a.read(&mut t);
+            }
+            _ => {
+                let _ = a.write(&[0x61; 5]);
+            }
+        }
+        match c.other {
+            1 => {
+                let _ = b.set_len(10);
+            }
+            2 => {
+                let _ = b.set_len(c.initial as u64 + 200);
+            }
+            3 => {
+                let _ = b.seek(SeekFrom::End(0));
+                let _ = b.write_all(&[0x62; 30]);
+                let _ = b.flush();
+            }
+            _ => {}
+        }
+        let mut was_refused = false;
+        if c.with_refused {
+            let r = match c.refused {
+                0 => a.set_len(u64::MAX).map(|_| 0u64),
+                1 => a.seek(SeekFrom::Start(u64::MAX)),
+                2 => a.seek(SeekFrom::Current(i64::MIN)),
+                _ => a.seek(SeekFrom::End(1)),
+            };
+            was_refused = matches!(&r, Err(e) if e.kind() == std::io::ErrorKind::InvalidInput);
+        }
+        let mut obs = Vec::new();
+        obs.push(format!("len={}", a.len()));
+        obs.push(format!("pos={:?}", a.stream_position().map_err(|e| e.kind())));
+        let mut t = [0u8; 20];
+        obs.push(format!("read={:?}", a.read(&mut t).map(|k| t[..k].to_vec()).map_err(|e| e.kind())));
+        obs.push(format!("seek_end={:?}", a.seek(SeekFrom::End(0)).map_err(|e| e.kind())));
+        obs.push(format!("write={:?}", a.write_all(b"tail").map_err(|e| e.kind())));
+        obs.push(format!("flush={:?}", a.flush().map_err(|e| e.kind())));
+        drop(a);
+        drop(b);
+        let mut got = Vec::new();
+        let fin = l.comp.open_stream("/s").and_then(|mut s| s.read_to_end(&mut got)).map_err(|e| e.kind());
+        obs.push(format!("final={:?} {:016x} len {}", fin, crate::report::fnv64(&got), got.len()));
+        obs.push(format!("image={:016x}", crate::report::fnv64(&l.snapshot())));
+        Ok((was_refused, obs))
+    })
+    .unwrap_or_else(|p| Err(format!("PANIC: {}", p)))
+}
+
+pub fn explore_two_handle_refusals(ctx: &Ctx) -> (u64, u64) {
+    let mut cases = Vec::new();
+    for version in [3u16, 4] {
+        for initial in [100usize, 5000] {
+            for pre in 0..3u8 {
+                for other in 0..4u8 {
+                    for refused in 0..4u8 {
+                        cases.push(TwoHandleCase { version, initial, pre, other, refused, with_refused: true });
+                    }
+                }
+            }
+        }
+    }
+    let n: Vec<u64> = cases
+        .par_iter()
+        .map(|c| {
+            let without = TwoHandleCase { with_refused: false, ..c.clone() };
+            match (run_two_handle_case(c), run_two_handle_case(&without)) {
+                (Ok((true, with)), Ok((_, base))) => {
+                    if with != base {
+                        let d = with.iter().zip(base.iter()).find(|(a, b)| a != b).map(|(a, b)| format!("{} vs {}", a, b)).unwrap_or_default();
+                        ctx.report(Violation {
+                            class: "refusal".into(),
+                            sig: format!("refusal:two-handles:refused-call-{}:later_results_differ", c.refused),
+                            msg: format!("two handles on one stream: after a call refused with InvalidInput on one handle its later results differ from the same history without that call: {} [{:?}]", d, c),
+                            replay: json!({"kind": "two_handles", "two_handles": c}),
+                        });
+                    }
+                }
+                (Ok((false, _)), _) => {} // not refused: nothing to judge here
+                (Err(e), _) | (_, Err(e)) => {
+                    let class = if e.contains("PANIC") { "panic" } else { "machinery" };
+                    ctx.report(Violation { class: class.into(), sig: format!("{}:two-handles:{}", class, sig_norm(&e).chars().take(60).collect::<String>()), msg: format!("{} [{:?}]", e, c), replay: json!({"kind": "two_handles", "two_handles": c}) });
+                }
+            }
+            2
+        })
+        .collect();
+    (cases.len() as u64, n.iter().sum())
+}
